@@ -3353,7 +3353,21 @@ impl<Front: SocketHandler> ConnectionH2<Front> {
                 "IoSlice refs must be cleared before consume"
             );
             debug.push(DebugEvent::SocketIO(debug_site, global_stream_id, size));
+            // `Kawa::consume` may shift the storage buffer to its start and then
+            // re-synchronises the stores of `out` only: it assumes `blocks` is
+            // empty. Here `blocks` is NOT empty whenever the converter stopped
+            // early (flow-control stall, frame-size split, RFC 9218 yield): the
+            // chunks left behind still point at the old offsets, the next
+            // `prepare` would frame the wrong bytes and a later shift would
+            // underflow a `Slice::start`. Re-synchronise them by the same amount.
+            let end_before_consume = kawa.storage.end;
             kawa.consume(size);
+            let shifted = end_before_consume.saturating_sub(kawa.storage.end);
+            if shifted > 0 {
+                for block in kawa.blocks.iter_mut() {
+                    block.push_left(shifted as u32);
+                }
+            }
             position.count_bytes_out_counter(size);
             position.count_bytes_out(metrics, size);
             if let Some(counter) = bytes_written.as_deref_mut() {
